@@ -324,7 +324,9 @@ def check_molden_tags(ctx, ce):
     # writer: the maximal run of top-level statements that write tag constants
     wst = [st for st in do.body if any(isinstance(x, ast.Constant) and isinstance(x.value, str) and tagre.match(x.value) for x in ast.walk(st))]
     kv = None
-    dict_locals = {t.id for n_ in do.own_nodes() if isinstance(n_, ast.Assign) and isinstance(n_.value, ast.Dict) for t in n_.targets if isinstance(t, ast.Name)}
+    # the table of kinds per angular momentum the tag statements read: a local of the writer (a dictionary literal
+    # filled in place, or the result of a helper), subscripted with the angular momentum in the tag tests
+    dict_locals = {t.id for n_ in do.own_nodes() if isinstance(n_, ast.Assign) for t in n_.targets if isinstance(t, ast.Name)}
     for st in wst:
         for x in ast.walk(st):
             if isinstance(x, ast.Subscript) and isinstance(x.value, ast.Name) and x.value.id in dict_locals:
